@@ -65,6 +65,13 @@ Proof.
   intros k l. rewrite <- nmem_In. destruct (nmem k l); split; congruence.
 Qed.
 
+Lemma nodup_ids_NoDup : forall l, nodup_ids l = true -> NoDup l.
+Proof.
+  induction l as [|x r IH]; cbn; intros H; constructor.
+  - apply andb_prop in H. destruct H as [H _]. apply negb_true_iff in H. now apply nmem_false in H.
+  - apply IH. now apply andb_prop in H.
+Qed.
+
 Lemma nmem_cons : forall k x l, nmem k (x :: l) = Nat.eqb k x || nmem k l.
 Proof. reflexivity. Qed.
 
